@@ -153,6 +153,7 @@ class Ctx:
         self.nofork = False
         self.merge_mode = 0
         self.guards = []
+        self.loop_capture = []
         self._index_ids = set()
         self.call_stack = []
         self.sums = []  # (prefix-sum function, series, length term)
@@ -345,12 +346,14 @@ class Interp:
                                 "matplotlib.patches", "matplotlib.colors", "matplotlib.cm",
                                 "src.utilities.make_powerpoint"}
         self.max_steps = 4_000_000
+        self._MISSING = _MISSING
         self.sources_used = {}
-        from . import builtins_model, npmodel, pulpmodel
+        from . import builtins_model, npmodel, pulpmodel, pdmodel
 
         builtins_model.install(self)
         npmodel.install(self)
         pulpmodel.install(self)
+        pdmodel.install(self)
         self.ctx = None
 
     # -------------------------------------------------------------------------------- modules
@@ -1018,6 +1021,25 @@ class Interp:
                 d[self.hashable(self.eval(k, env))] = self.eval(v, env)
         return d
 
+    def dict_find(self, d, key):
+        """Stored key of `d` equal to `key` (value equality, forking on symbolic components), or _MISSING."""
+        key = self.hashable(key)
+        if not _has_sym(key) and not any(_has_sym(k) for k in d):
+            return key if key in d else _MISSING
+        for k in list(d.keys()):
+            if k is key:
+                return k
+            if type(k) is not type(key) and not (isinstance(k, (int, Fraction, Sym)) and isinstance(key, (int, Fraction, Sym))):
+                continue
+            eq = self.truth(self.compare(ast.Eq(), k, key))
+            if eq is True:
+                return k
+            if eq is False:
+                continue
+            if self.ctx.branch(eq):
+                return k
+        return _MISSING
+
     def hashable(self, k):
         k = simp(k) if isinstance(k, Sym) else k
         if isinstance(k, Sym):
@@ -1129,6 +1151,8 @@ class Interp:
         if isinstance(e.op, ast.UAdd):
             return v
         if isinstance(e.op, ast.Invert):
+            if type(v).__name__ == "MaskVal":
+                return type(v)(v.table, lambda row, v=v: ops.s_not(self.truth(v.pred(row))))
             if isinstance(v, Arr) and v.dtype == "bool":
                 return ops.arr_map(ops.s_not, v, dtype="bool")
             if isinstance(v, int):
@@ -1319,6 +1343,8 @@ class Interp:
         if isinstance(op, ast.NotIn):
             return ops.s_not(self.contains(b, a))
         sop = CMPOPS[type(op)]
+        if isinstance(a, self.pd_types) or isinstance(b, self.pd_types):
+            return self.pd_compare(sop, a, b)
         if isinstance(a, Obj):
             name = CMP_DUNDER[sop]
             f, _ = a.cls.lookup(name)
@@ -1399,7 +1425,7 @@ class Interp:
                 raise PyRaise("TypeError", "'in <string>' requires string as left operand")
             return simp(Sym(z3.Contains(tc, tx), "bool"))
         if isinstance(container, dict):
-            return self.hashable(x) in container
+            return self.dict_find(container, x) is not _MISSING
         if isinstance(container, OpenDict):
             k = self.hashable(x)
             if k in container.entries:
@@ -1534,6 +1560,8 @@ class Interp:
         return v
 
     def set_attr(self, obj, name, v):
+        if self.ctx.loop_capture and id(obj) in self.ctx.loop_capture[-1]["objs"]:
+            raise Unsupported(f"summarised loop body assigns attribute '{name}' of an object defined outside the loop")
         if isinstance(obj, Obj):
             obj.attrs[name] = v
             w = getattr(obj, "write_log", None)
@@ -1567,10 +1595,13 @@ class Interp:
     def get_item(self, obj, key):
         from .builtins_model import seq_getitem
 
+        if self.ctx.loop_capture and isinstance(obj, Arr) and id(obj) in self.ctx.loop_capture[-1]["arrs"]:
+            self.ctx.loop_capture[-1]["reads"].add(id(obj))
+
         if isinstance(obj, dict):
-            k = self.hashable(key)
-            if k not in obj:
-                raise PyExc(ExcVal("KeyError", (k,)))
+            k = self.dict_find(obj, key)
+            if k is _MISSING:
+                raise PyExc(ExcVal("KeyError", (key,)))
             return obj[k]
         if isinstance(obj, OpenDict):
             return self.opendict_get(obj, key)
@@ -1578,6 +1609,8 @@ class Interp:
             return self.call_method(obj, "__getitem__", [key])
         if isinstance(obj, Opaque):
             raise Unsupported(f"subscript of {obj!r}")
+        if isinstance(obj, self.pd_types):
+            return self.pd_getitem(obj, key)
         return seq_getitem(self, obj, key)
 
     def opendict_get(self, d, key):
@@ -1594,8 +1627,20 @@ class Interp:
     def set_item(self, obj, key, v):
         from .builtins_model import seq_setitem
 
+        if self.ctx.loop_capture:
+            fr = self.ctx.loop_capture[-1]
+            if id(obj) in fr["objs"]:
+                raise Unsupported("summarised loop body writes into a dict/list defined outside the loop")
+            if isinstance(obj, Arr) and id(obj) in fr["arrs"]:
+                from .builtins_model import norm_index, SliceValT
+                if isinstance(key, SliceVal) or isinstance(key, (Arr, list, tuple)):
+                    raise Unsupported("summarised loop body slice-assigns an outer array")
+                fr["writes"].append((obj, norm_index(self, key, obj.length), v))
+                return
+
         if isinstance(obj, dict):
-            obj[self.hashable(key)] = v
+            k = self.dict_find(obj, key)
+            obj[self.hashable(key) if k is _MISSING else k] = v
         elif isinstance(obj, OpenDict):
             k = self.hashable(key)
             obj.entries[k] = v
@@ -1605,6 +1650,8 @@ class Interp:
             self.call_method(obj, "__setitem__", [key, v])
         elif isinstance(obj, NativeModule) and obj.dropped:
             self.ctx.dropped.add(f"{obj.name}[...] = ... (plotting data)")
+        elif isinstance(obj, self.pd_types[0]):
+            self.ctx.dropped.add("world map[...] = ... (plotting data)")
         else:
             seq_setitem(self, obj, key, v)
 
@@ -1832,6 +1879,14 @@ class Interp:
 
 
 _MISSING = object()
+
+
+def _has_sym(k):
+    if isinstance(k, Sym):
+        return True
+    if isinstance(k, tuple):
+        return any(_has_sym(x) for x in k)
+    return False
 
 
 class SuperVal:
